@@ -176,7 +176,12 @@ def judge(src, exclude):
     elif o in (ND, DT):
         # the rejection must name a use that really has the problem (most tolerant universe)
         f = sm._undef if o == ND else sm._mist
-        if rep is None or not f(rep.tyM):
+        exact = m.acceptable(frozenset())  # the statement's own verdict, no tolerance
+        if o not in exact:
+            # the title is only acceptable through a tolerated (known-finding) reading; the model of
+            # "jumps fall through" does not pin which use inside nested dead code is named there
+            res["tolerated_location_unchecked"] = True
+        elif rep is None or not f(rep.tyM):
             kind = "undefined" if o == ND else "mistyped"
             bucket = f"wrong_location.{kind}"
             why = (f"rejected with `{o}` naming `{var}` at line {line}, but that is not a read of `{var}` that is "
